@@ -639,8 +639,10 @@ def norm_tokens(d):
     return t.split(".")
 
 
-def canon_invoke(i):
-    return {"a": [i.get("id") or "", i.get("idlocation") or "", s_(i.get("type")), s_(i.get("typeexpr")), s_(i.get("src")),
+def canon_invoke(i, parent=""):
+    # (the name of the invoking state matters when the invoke id is generated: "<state>.<n>"; with an explicit id the
+    # binary format does not store it)
+    return {"a": ["@" + (parent if not i.get("id") else ""), i.get("id") or "", i.get("idlocation") or "", s_(i.get("type")), s_(i.get("typeexpr")), s_(i.get("src")),
                   s_(i.get("srcexpr")), " ".join(i.get("namelist") or []), "1" if i.get("autoforward") else "0"]
             + canon_content(i.get("content")) + ["#"] + canon_params(i.get("params")),
             "fin": canon_block(i.get("finalize")), "hasfin": "1" if i.get("finalize") is not None else "0"}
@@ -698,7 +700,7 @@ def abstract_to_D(ab, rootel):
                        "tgt": [byid[x]["name"] for x in t["tgt"]], "internal": bool(t["internal"]),
                        "content": canon_block(t["content"])} for t in s["trans"]],
             "data": [[k, v] for k, v in sorted(s["data"].items())],
-            "invoke": [canon_invoke(i) for i in s["invoke"]],
+            "invoke": [canon_invoke(i, nm) for i in s["invoke"]],
             "donedata": canon_donedata(s["donedata"]),
         })
     m = ab["meta"]
@@ -726,7 +728,8 @@ def model_to_M(model):
             "invoke": [canon_invoke({"id": i["id"], "idlocation": i["idlocation"], "type": i["type"], "typeexpr": i["typeexpr"],
                                      "src": i["src"], "srcexpr": i["srcexpr"], "namelist": i["namelist"],
                                      "autoforward": i["autoforward"], "params": i["params"], "content": i["content"],
-                                     "finalize": model_block(i["finalize"]) if i["finalize"] is not None else None})
+                                     "finalize": model_block(i["finalize"]) if i["finalize"] is not None else None},
+                                    i.get("parent_state") or "")
                        for i in s["invoke"]],
             "donedata": canon_donedata(s["donedata"]),
         })
